@@ -49,8 +49,17 @@ func confirmViolation(prop string, v violation) (path string, confirmed bool, ou
 		return "", false, "cannot write replay file: " + err.Error()
 	}
 	ok, out := nativeReplay(path)
+	if !ok && v.Goroutines > 0 && gProgram != nil {
+		// the violation depends on a goroutine schedule that cannot be forced
+		// on the native build: replay it concretely in the engine instead
+		if ok2, out2 := engineConcreteReplay(gProgram, v); ok2 {
+			return path, true, out2
+		}
+	}
 	return path, ok, out
 }
+
+var gProgram *program
 
 var harnessDecl = regexp.MustCompile(`(?m)^func vH_(\w+)\(\)`)
 
@@ -66,10 +75,39 @@ func nativeReplay(path string) (bool, string) {
 	if err := json.Unmarshal(b, &rf); err != nil {
 		return false, err.Error()
 	}
+	testTimeout := "90s"
+	if rf.Kind == "unwind" || rf.Kind == "deadlock" {
+		testTimeout = "20s"
+	}
+	out, err := nativeRun(path, testTimeout)
+	if err != nil {
+		return false, err.Error()
+	}
+	hung := strings.Contains(out, "VREPLAY-TIMEOUT") || strings.Contains(out, "test timed out") || strings.Contains(out, "all goroutines are asleep")
+	switch rf.Kind {
+	case "assert":
+		if strings.Contains(out, "VREPLAY-VIOLATION assert "+rf.Label+"\n") || strings.Contains(out, "VREPLAY-VIOLATION assert "+rf.Label+" ") {
+			return true, out
+		}
+	case "panic":
+		if strings.Contains(out, "VREPLAY-VIOLATION panic") {
+			return true, out
+		}
+	case "deadlock", "unwind":
+		if hung {
+			return true, out
+		}
+	}
+	return false, lastLines(out, 12)
+}
+
+// nativeRun compiles the harnesses next to a scratch copy of /repo's working
+// tree and runs TestVReplay on the given replay file(s) (':'-separated).
+func nativeRun(paths string, testTimeout string) (string, error) {
 	repo := repoDir()
 	scratch, err := os.MkdirTemp("", "symgo-replay-")
 	if err != nil {
-		return false, err.Error()
+		return "", err
 	}
 	defer os.RemoveAll(scratch)
 	srcs, _ := filepath.Glob(filepath.Join(repo, "*.go"))
@@ -80,11 +118,11 @@ func nativeReplay(path string) (bool, string) {
 		}
 		c, err := os.ReadFile(f)
 		if err != nil {
-			return false, err.Error()
+			return "", err
 		}
 		c = randImport.ReplaceAll(c, []byte(`${1}rand "`+pkgPath+`/vrand"`))
 		if err := os.WriteFile(filepath.Join(scratch, base), c, 0o644); err != nil {
-			return false, err.Error()
+			return "", err
 		}
 	}
 	for _, f := range []string{"go.mod", "go.sum"} {
@@ -110,14 +148,10 @@ func nativeReplay(path string) (bool, string) {
 	}
 	reg.WriteString("}\n")
 	os.WriteFile(filepath.Join(scratch, "zz_verif_registry.go"), []byte(reg.String()), 0o644)
-	timeout := 120 * time.Second
-	testTimeout := "90s"
-	if rf.Kind == "unwind" || rf.Kind == "deadlock" {
-		testTimeout = "20s"
-	}
-	cmd := exec.Command("go", "test", "-vet=off", "-count=1", "-run", "^TestVReplay$", "-timeout", testTimeout, ".")
+	timeout := 150 * time.Second
+	cmd := exec.Command("go", "test", "-v", "-vet=off", "-count=1", "-run", "^TestVReplay$", "-timeout", testTimeout, ".")
 	cmd.Dir = scratch
-	cmd.Env = append(os.Environ(), "VERIF_REPLAY="+path, "GOFLAGS=-mod=mod", "GOPROXY=off", "GOSUMDB=off", "GOTOOLCHAIN=local")
+	cmd.Env = append(os.Environ(), "VERIF_REPLAY="+paths, "GOFLAGS=-mod=mod", "GOPROXY=off", "GOSUMDB=off", "GOTOOLCHAIN=local")
 	done := make(chan struct{})
 	var outB []byte
 	go func() {
@@ -133,23 +167,43 @@ func nativeReplay(path string) (bool, string) {
 		<-done
 		outB = append(outB, []byte("\nVREPLAY-TIMEOUT (killed)")...)
 	}
-	out := string(outB)
-	hung := strings.Contains(out, "VREPLAY-TIMEOUT") || strings.Contains(out, "test timed out") || strings.Contains(out, "all goroutines are asleep")
-	switch rf.Kind {
-	case "assert":
-		if strings.Contains(out, "VREPLAY-VIOLATION assert "+rf.Label+"\n") || strings.Contains(out, "VREPLAY-VIOLATION assert "+rf.Label+" ") {
-			return true, out
-		}
-	case "panic":
-		if strings.Contains(out, "VREPLAY-VIOLATION panic") {
-			return true, out
-		}
-	case "deadlock", "unwind":
-		if hung {
-			return true, out
+	return string(outB), nil
+}
+
+// validateSamples: translator validation.  Witness inputs of completed (OK)
+// symbolic paths are run natively; the native run must pass as well.
+// Returns (agreeing, disagreeing files).
+func validateSamples(prop string, samples []violation) (int, []string) {
+	var files []string
+	for k, v := range samples {
+		v.Kind, v.Label = "pass", fmt.Sprintf("sample%d", k)
+		p, err := writeReplay(prop+"_sample", v)
+		if err == nil {
+			files = append(files, p)
 		}
 	}
-	return false, lastLines(out, 12)
+	if len(files) == 0 {
+		return 0, nil
+	}
+	out, err := nativeRun(strings.Join(files, ":"), "120s")
+	if err != nil {
+		return 0, []string{err.Error()}
+	}
+	agree := 0
+	var bad []string
+	for _, f := range files {
+		switch {
+		case strings.Contains(out, "VREPLAY-FILE "+f+" PASS"):
+			agree++
+			os.Remove(f)
+		default:
+			bad = append(bad, f)
+		}
+	}
+	if len(bad) > 0 {
+		bad = append(bad, lastLines(out, 8))
+	}
+	return agree, bad
 }
 
 func lastLines(s string, n int) string {
